@@ -437,7 +437,8 @@ Exec(n, s, st) ==
               LET ev == IF b.o = "thr" THEN b.v ELSE RtErrV("signal")
                   st2 == IF n.cv # "" THEN DefineIn(b.st, ns, n.cv, ev) ELSE b.st
                   c == ExecList(n.c, 1, ns, st2) IN
-              IF c.o # "norm" THEN (IF Len(n.f) = 1 THEN R(MarkOpen(c.st), c.o, c.v) ELSE c)   \* finally after a failing/leaving catch: open
+              IF c.o # "norm" THEN (IF Len(n.f) = 1 /\ c.o # "thr" THEN R(MarkOpen(c.st), c.o, c.v) ELSE c)   \* an error raised by the catch block is uncaught: nothing after the
+                                                                                                   \* failing point runs, so finally does not; finally after a catch left by return/break/continue: open
               ELSE IF Len(n.f) = 1 THEN ExecList(n.f[1], 1, ns, c.st) ELSE Norm(c.st, OpenV)
          ELSE IF Len(n.f) = 1 THEN ExecList(n.f[1], 1, ns, b.st) ELSE Norm(b.st, OpenV)
     [] n.k = "module" ->
